@@ -1,8 +1,10 @@
 (* C04: a peer is closed once, and never written after it was closed, as long
    as every peer-close site of the inventory is on the handler's exit path
-   (after the loop, after removal from broker and dealer) or on the attach
-   path before a handler exists.  Conversely a close anywhere else, or an exit
-   path that skips the removal, has a panicking trace. *)
+   (after the loop, after removal from broker and dealer), on the attach path
+   before a handler exists, or on the realm-shutdown path after broker and
+   dealer have stopped.  Conversely a close anywhere else, an exit path that
+   skips the removal, or a shutdown close that is not ordered after the stops
+   has a panicking trace. *)
 From Coq Require Import List Bool Arith Lia.
 From Nexus Require Import Safety.Sites Safety.Close.
 Import ListNotations.
@@ -11,9 +13,11 @@ Import ListNotations.
 Record inv (s : pstate) : Prop := {
   inv_none : hnd s = HNone -> in_broker s = false /\ in_dealer s = false;
   inv_closed : chan_closed s = true ->
-               hnd s <> HRunning /\ in_broker s = false /\ in_dealer s = false /\
+               hnd s <> HRunning /\ hnd s <> HParked /\
+               (stopped s = true \/ (in_broker s = false /\ in_dealer s = false)) /\
                ~ (att s = APre /\ hnd s = HNone);
-  inv_started : hnd s <> HNone -> att s = AStarted
+  inv_started : hnd s <> HNone -> att s = AStarted;
+  inv_stopped : stopped s = true -> hnd s <> HRunning
 }.
 
 Lemma inv_init : inv init.
@@ -22,6 +26,7 @@ Proof.
   - auto.
   - intros H; discriminate.
   - intros H; congruence.
+  - intros H; discriminate.
 Qed.
 
 Lemma nth_ok sites i p :
@@ -41,48 +46,79 @@ Lemma step_safe sites s e :
   | _ => False
   end.
 Proof.
-  intros OK I. pose proof I as I0. destruct I0 as [In Ic Is].
+  intros OK I. pose proof I as I0. destruct I0 as [In Ic Is It].
   destruct e; simpl.
   - (* start handler *)
-    destruct (att s) eqn:A; auto. destruct (hnd s) eqn:H; auto.
-    constructor; simpl.
+    destruct (att s) eqn:A; auto. destruct (hnd s) eqn:H; auto. destruct (stopped s) eqn:S; auto.
+    constructor; unfold upd; simpl.
     + fin.
     + intros C. destruct (Ic C) as (_ & _ & _ & N). exfalso; apply N; auto.
     + fin.
+    + fin.
   - (* join *)
     destruct (hnd s) eqn:H; auto.
-    constructor; simpl; rewrite ?H.
+    constructor; unfold upd; simpl; rewrite ?H.
     + fin.
     + intros C. destruct (Ic C) as (N & _). congruence.
     + intros _. apply Is. congruence.
+    + intros S. apply It in S. congruence.
   - (* handler send *)
     destruct (hnd s) eqn:H; auto. unfold do_send.
     destruct (chan_closed s) eqn:C.
     + destruct (Ic eq_refl) as (N & _). congruence.
     + exact I.
   - (* router send *)
-    destruct (if from_broker then in_broker s else in_dealer s) eqn:M; auto.
+    destruct ((if from_broker then in_broker s else in_dealer s) && negb (stopped s)) eqn:M; auto.
     unfold do_send. destruct (chan_closed s) eqn:C.
-    + destruct (Ic eq_refl) as (_ & B & D & _). destruct from_broker; congruence.
+    + apply andb_true_iff in M as [M S]. apply negb_true_iff in S.
+      destruct (Ic eq_refl) as (_ & _ & [St|[B D]] & _); [congruence|].
+      destruct from_broker; congruence.
     + exact I.
+  - (* handler exits at shutdown *)
+    destruct (hnd s) eqn:H; auto.
+    constructor; unfold upd; simpl.
+    + fin.
+    + intros C. destruct (Ic C) as (N & _). congruence.
+    + intros _. apply Is. congruence.
+    + fin.
+  - (* broker and dealer stop *)
+    destruct (hnd s) eqn:H; auto;
+      (constructor; unfold upd; simpl; rewrite ?H;
+       [ intros X; try discriminate X; apply In; auto
+       | intros C; destruct (Ic C) as (N1 & N2 & _ & N4); repeat split; try congruence; auto;
+         intros [X Y]; apply N4; split; congruence
+       | intros X; apply Is; congruence
+       | intros _; congruence ]).
   - (* close site *)
     destruct (nth_error sites i) as [p|] eqn:N; auto.
     pose proof (nth_ok _ _ _ OK N) as P.
-    destruct p as [l b d| |]; simpl in P; try discriminate.
+    destruct p as [l b d| |sb sd|]; simpl in P; try discriminate.
     + apply andb_true_iff in P as [P Pd]. apply andb_true_iff in P as [Pl Pb]. subst.
       destruct (hnd s) eqn:H; auto. unfold do_close.
       destruct (chan_closed s) eqn:C.
       * destruct (Ic eq_refl) as (Nr & _). congruence.
-      * constructor; simpl.
+      * constructor; unfold upd; simpl.
         -- fin.
         -- rewrite !andb_false_r. fin.
         -- intros _. apply Is. congruence.
+        -- fin.
     + destruct (att s) eqn:A; auto. destruct (hnd s) eqn:H; auto. unfold do_close.
       destruct (chan_closed s) eqn:C.
       * destruct (Ic eq_refl) as (_ & _ & _ & X). apply X; auto.
-      * constructor; simpl.
+      * constructor; unfold upd; simpl.
         -- intros _. apply In; auto.
         -- intros _. destruct (In eq_refl) as [B D]. fin.
+        -- fin.
+        -- fin.
+    + apply andb_true_iff in P as [Pb Pd]. subst. simpl.
+      destruct (hnd s) eqn:H; auto. rewrite orb_false_r.
+      destruct (stopped s) eqn:S; auto. unfold do_close.
+      destruct (chan_closed s) eqn:C.
+      * destruct (Ic eq_refl) as (_ & Np & _). congruence.
+      * constructor; unfold upd; simpl.
+        -- fin.
+        -- fin.
+        -- intros _. apply Is. congruence.
         -- fin.
 Qed.
 
@@ -105,7 +141,26 @@ Proof.
   rewrite R; split; discriminate.
 Qed.
 
-(* once the channel is closed no close site is enabled any more *)
+(* the channel stays closed *)
+Lemma closed_stays sites s e s' :
+  chan_closed s = true -> step sites s e = CStep s' -> chan_closed s' = true.
+Proof.
+  intros C E. destruct e; simpl in E.
+  - destruct (att s); try discriminate; destruct (hnd s); try discriminate; destruct (stopped s); try discriminate;
+      inversion E; subst; auto.
+  - destruct (hnd s); try discriminate; inversion E; subst; auto.
+  - destruct (hnd s); try discriminate. unfold do_send in E. rewrite C in E. discriminate.
+  - destruct ((if from_broker then in_broker s else in_dealer s) && negb (stopped s)); try discriminate.
+    unfold do_send in E. rewrite C in E. discriminate.
+  - destruct (hnd s); try discriminate; inversion E; subst; auto.
+  - destruct (hnd s); try discriminate; inversion E; subst; auto.
+  - destruct (nth_error sites i) as [p|]; try discriminate.
+    destruct p; unfold do_close in E; rewrite C in E;
+      repeat match type of E with context[match ?x with _ => _ end] => destruct x end;
+      try discriminate.
+Qed.
+
+(* once the channel is closed no close site succeeds any more *)
 Lemma closes_after_closed sites :
   close_sites_ok sites = true ->
   forall t s, inv s -> chan_closed s = true -> closes sites s t = 0.
@@ -114,17 +169,7 @@ Proof.
   pose proof (step_safe sites s e OK I) as S.
   destruct (step sites s e) as [s'| | |] eqn:E; try contradiction; auto.
   rewrite C; simpl.
-  apply IH; auto.
-  (* the channel stays closed *)
-  destruct e; simpl in E.
-  - destruct (att s); try discriminate; destruct (hnd s); try discriminate; inversion E; subst; auto.
-  - destruct (hnd s); try discriminate; inversion E; subst; auto.
-  - destruct (hnd s); try discriminate. unfold do_send in E. rewrite C in E. discriminate.
-  - destruct (if from_broker then in_broker s else in_dealer s); try discriminate.
-    unfold do_send in E. rewrite C in E. discriminate.
-  - destruct (nth_error sites i) as [p|]; try discriminate.
-    destruct p; unfold do_close in E; rewrite C in E;
-      repeat match type of E with context[match ?x with _ => _ end] => destruct x end; discriminate.
+  apply IH; auto. eapply closed_stays; eauto.
 Qed.
 
 Theorem closed_at_most_once sites t :
@@ -178,10 +223,17 @@ Theorem exit_before_loop_end sites j b d :
   run sites init [EStartHandler; EClose j; EHandlerSend] = CPanicSendClosed.
 Proof. intros Hj. simpl. rewrite Hj. reflexivity. Qed.
 
-(* non-vacuity: the acceptable inventory of the repaired tree admits a run in
-   which the peer is really closed, by the exit path *)
+(* a shutdown close that is not ordered after broker.close() / dealer.close() *)
+Theorem shutdown_close_before_stop sites j sb sd :
+  sb && sd = false -> nth_error sites j = Some (CPShutdown sb sd) ->
+  run sites init [EStartHandler; EJoin true true; EShutdownExit; EClose j; ERouterSend true] = CPanicSendClosed.
+Proof. intros F Hj. simpl. rewrite Hj. simpl. rewrite F. reflexivity. Qed.
+
+(* non-vacuity: the acceptable inventory of the repaired tree admits runs in
+   which the peer is really closed, by the exit path and by the shutdown path *)
 Example exit_path_closes :
-  let sites := [CPExit true true true; CPPreSession; CPPreSession] in
+  let sites := [CPShutdown true true; CPExit true true true; CPPreSession; CPPreSession] in
   close_sites_ok sites = true /\
-  closes sites init [EStartHandler; EJoin true true; EHandlerSend; ERouterSend true; EClose 0; ERouterSend true; EClose 0] = 1.
-Proof. split; reflexivity. Qed.
+  closes sites init [EStartHandler; EJoin true true; EHandlerSend; ERouterSend true; EClose 1; ERouterSend true; EClose 1; EClose 0] = 1 /\
+  closes sites init [EStartHandler; EJoin true true; ERouterSend false; EShutdownExit; EClose 0; ERouterSend true; EStop; ERouterSend true; EClose 0; EClose 0] = 1.
+Proof. repeat split; reflexivity. Qed.
